@@ -672,6 +672,12 @@ class SymBytes:
                     out.append(z3.simplify((_zc(b) - 192) * 64 + (_zc(self.bs[i + 1]) - 128)))
                     i += 2
                 elif mkbool(_in_ranges(b, [(0xE0, 0xF4)])):
+                    # a lead byte of a 3- or 4-byte sequence: CPython rejects it unless the next 2 / 3
+                    # bytes are continuation bytes; only a well-formed long sequence is beyond the model
+                    need = 2 if mkbool(_in_ranges(b, [(0xE0, 0xEF)])) else 3
+                    for k in range(1, need + 1):
+                        if i + k >= n or not mkbool(_in_ranges(self.bs[i + k], [(0x80, 0xBF)])):
+                            raise UnicodeDecodeError("utf-8", b"?", i, i + k, "invalid continuation byte")
                     raise Unsupported("utf-8 sequences of 3+ bytes")
                 else:
                     raise UnicodeDecodeError("utf-8", b"?", i, i + 1, "invalid start byte")
